@@ -315,16 +315,25 @@ pub enum End {
     LocalClose(usize),
     /// a datagram with one chunk of this type (6 ABORT, 7 SHUTDOWN, 8 SHUTDOWN-ACK, 14 SHUTDOWN-COMPLETE) handed to this side
     Inject(usize, u8),
+    /// a scripted sequence of datagrams a (foreign) peer could send, handed to this side; the association stays up:
+    /// 1 = more out-of-order chunks than the receive queue's cap, then the missing one; 2 = a second DCEP ACK for
+    /// channel 2 in a new DATA chunk; 3 = first fragment on (unordered) channel 2, a FORWARD-TSN over the next TSN
+    /// that names only stream 1, then the last fragment; 4-7 = further FORWARD-TSN scripts (see run_case)
+    Script(usize, u8),
 }
+/// number of chunks queued out of order by script 1 (the code's MAX_RECEIVED_QUEUE_SIZE is 512)
+pub const FLOOD_N: usize = 530;
 impl End {
-    pub fn text(&self) -> String { match self { End::None => "-".into(), End::LocalClose(s) => format!("close{}", ["A", "B"][*s]), End::Inject(s, t) => format!("inject{}{t}", ["A", "B"][*s]) } }
+    pub fn text(&self) -> String { match self { End::None => "-".into(), End::LocalClose(s) => format!("close{}", ["A", "B"][*s]), End::Inject(s, t) => format!("inject{}{t}", ["A", "B"][*s]),
+        End::Script(s, n) => format!("script{}{n}", ["A", "B"][*s]) } }
     pub fn parse(t: &str) -> End {
         if let Some(r) = t.strip_prefix("close") { return End::LocalClose(if r == "A" { 0 } else { 1 }); }
+        if let Some(r) = t.strip_prefix("script") { let side = if r.starts_with('A') { 0 } else { 1 }; return End::Script(side, r[1..].parse().unwrap_or(1)); }
         if let Some(r) = t.strip_prefix("inject") { let side = if r.starts_with('A') { 0 } else { 1 }; return End::Inject(side, r[1..].parse().unwrap_or(6)); }
         End::None
     }
     /// the association is expected to be Closed on this side afterwards
-    pub fn closes_side(&self, side: usize) -> bool { match self { End::LocalClose(s) => *s == side, End::Inject(s, t) => *s == side && [6u8, 8, 14].contains(t), End::None => false } }
+    pub fn closes_side(&self, side: usize) -> bool { match self { End::LocalClose(s) => *s == side, End::Inject(s, t) => *s == side && [6u8, 8, 14].contains(t), End::None | End::Script(..) => false } }
 }
 
 /// an SCTP datagram carrying one empty chunk of type `t` (correct CRC-32C; ports / tag as given)
@@ -336,6 +345,28 @@ pub fn control_packet(src: u16, dst: u16, tag: u32, t: u8) -> Bytes {
     p[8..12].copy_from_slice(&c);
     Bytes::from(p)
 }
+
+/// an SCTP datagram with one DATA chunk
+#[allow(clippy::too_many_arguments)]
+pub fn data_packet(src: u16, dst: u16, tag: u32, tsn: u32, flags: u8, sid: u16, ssn: u16, ppid: u32, payload: &[u8]) -> Bytes {
+    let mut p = vec![];
+    p.extend_from_slice(&src.to_be_bytes()); p.extend_from_slice(&dst.to_be_bytes()); p.extend_from_slice(&tag.to_be_bytes()); p.extend_from_slice(&[0; 4]);
+    p.extend_from_slice(&[0, flags]); p.extend_from_slice(&((16 + payload.len()) as u16).to_be_bytes());
+    p.extend_from_slice(&tsn.to_be_bytes()); p.extend_from_slice(&sid.to_be_bytes()); p.extend_from_slice(&ssn.to_be_bytes()); p.extend_from_slice(&ppid.to_be_bytes());
+    p.extend_from_slice(payload); while p.len() % 4 != 0 { p.push(0); }
+    let c = crc32c::crc32c(&p).to_le_bytes(); p[8..12].copy_from_slice(&c);
+    Bytes::from(p)
+}
+/// an SCTP datagram with one FORWARD-TSN chunk
+pub fn fwd_packet(src: u16, dst: u16, tag: u32, new_cum: u32, pairs: &[(u16, u16)]) -> Bytes {
+    let mut p = vec![];
+    p.extend_from_slice(&src.to_be_bytes()); p.extend_from_slice(&dst.to_be_bytes()); p.extend_from_slice(&tag.to_be_bytes()); p.extend_from_slice(&[0; 4]);
+    p.extend_from_slice(&[192, 0]); p.extend_from_slice(&((8 + 4 * pairs.len()) as u16).to_be_bytes()); p.extend_from_slice(&new_cum.to_be_bytes());
+    for (a, b) in pairs { p.extend_from_slice(&a.to_be_bytes()); p.extend_from_slice(&b.to_be_bytes()); }
+    let c = crc32c::crc32c(&p).to_le_bytes(); p[8..12].copy_from_slice(&c);
+    Bytes::from(p)
+}
+pub fn flood_payload(i: usize) -> Vec<u8> { let mut v = b"FLOOD".to_vec(); v.extend_from_slice(&(i as u32).to_be_bytes()); v }
 
 #[derive(Clone, Debug)]
 pub struct ChanFinal { pub id: u16, pub state: usize, pub negotiated: bool, pub ordered: bool, pub max_retransmits: Option<u16>,
@@ -510,10 +541,58 @@ pub async fn run_case(c: &Case, port_base: u16) -> Outcome {
                 let (ep, peer) = if side == 0 { (&a, &b) } else { (&b, &a) };
                 let _ = ep.in_tx.send(control_packet(peer.port, ep.port, ep.sctp.verif_snapshot().local_tag, t));
             }
+            End::Script(side, n) => {
+                let (ep, peer) = if side == 0 { (&a, &b) } else { (&b, &a) };
+                let snap = ep.sctp.verif_snapshot();
+                let (tag, cum) = (snap.local_tag, snap.cumulative_tsn_ack);
+                let mut pk = vec![];
+                match n {
+                    1 => {
+                        for i in 1..=FLOOD_N { pk.push(data_packet(peer.port, ep.port, tag, cum.wrapping_add(1 + i as u32), 7, 1, 0, 53, &flood_payload(i))); }
+                        pk.push(data_packet(peer.port, ep.port, tag, cum.wrapping_add(1), 7, 1, 0, 53, &flood_payload(0)));
+                    }
+                    2 => { for i in 1..=2u32 { pk.push(data_packet(peer.port, ep.port, tag, cum.wrapping_add(i), 7, 2, 0, 50, &[2])); } }
+                    // FORWARD-TSN scripts on channel 2 (flags: 4 = unordered, 2 = B, 1 = E). The first fragment [1] is in the
+                    // reassembly buffer when the FORWARD-TSN arrives; nothing may ever be completed from it.
+                    3 => { // skipped TSN never received, nothing queued behind it; names only stream 1
+                        pk.push(data_packet(peer.port, ep.port, tag, cum.wrapping_add(1), 6, 2, 0, 53, &[1]));
+                        pk.push(fwd_packet(peer.port, ep.port, tag, cum.wrapping_add(2), &[(1, 0)]));
+                        pk.push(data_packet(peer.port, ep.port, tag, cum.wrapping_add(3), 5, 2, 0, 53, &[3]));
+                    }
+                    4 => { // the last fragment already queued behind the gap: drained right after the FORWARD-TSN
+                        pk.push(data_packet(peer.port, ep.port, tag, cum.wrapping_add(1), 6, 2, 0, 53, &[1]));
+                        pk.push(data_packet(peer.port, ep.port, tag, cum.wrapping_add(3), 5, 2, 0, 53, &[3]));
+                        pk.push(fwd_packet(peer.port, ep.port, tag, cum.wrapping_add(2), &[(2, 0)]));
+                        pk.push(data_packet(peer.port, ep.port, tag, cum.wrapping_add(4), 7, 2, 0, 53, &[9, 9]));
+                    }
+                    5 => { // a received middle fragment is among the skipped ones (thrown out of the receive queue), one is not
+                        pk.push(data_packet(peer.port, ep.port, tag, cum.wrapping_add(1), 6, 2, 0, 53, &[1]));
+                        pk.push(data_packet(peer.port, ep.port, tag, cum.wrapping_add(3), 4, 2, 0, 53, &[3]));
+                        pk.push(fwd_packet(peer.port, ep.port, tag, cum.wrapping_add(3), &[(2, 0)]));
+                        pk.push(data_packet(peer.port, ep.port, tag, cum.wrapping_add(4), 5, 2, 0, 53, &[4]));
+                        pk.push(data_packet(peer.port, ep.port, tag, cum.wrapping_add(5), 7, 2, 0, 53, &[9, 9]));
+                    }
+                    6 => { // no pairs at all
+                        pk.push(data_packet(peer.port, ep.port, tag, cum.wrapping_add(1), 6, 2, 0, 53, &[1]));
+                        pk.push(fwd_packet(peer.port, ep.port, tag, cum.wrapping_add(2), &[]));
+                        pk.push(data_packet(peer.port, ep.port, tag, cum.wrapping_add(3), 5, 2, 0, 53, &[3]));
+                        pk.push(data_packet(peer.port, ep.port, tag, cum.wrapping_add(4), 7, 2, 0, 53, &[9, 9]));
+                    }
+                    _ => { // the same on the ordered channel 1 (SSN 7 skipped): first fragment buffered, FORWARD-TSN, last fragment
+                        let ssn = ep.sctp.verif_snapshot().inbound_streams.iter().find(|s| s.0 == 1).map(|s| s.1).unwrap_or(0);
+                        pk.push(data_packet(peer.port, ep.port, tag, cum.wrapping_add(1), 2, 1, ssn, 53, &[1]));
+                        pk.push(fwd_packet(peer.port, ep.port, tag, cum.wrapping_add(2), &[(1, ssn)]));
+                        pk.push(data_packet(peer.port, ep.port, tag, cum.wrapping_add(3), 1, 1, ssn, 53, &[3]));
+                        pk.push(data_packet(peer.port, ep.port, tag, cum.wrapping_add(4), 3, 1, ssn.wrapping_add(1), 53, &[9, 9]));
+                    }
+                }
+                for p in pk { let _ = ep.in_tx.send(p); }
+            }
             End::None => {}
         }
         let t1 = Instant::now();
-        while t1.elapsed() < Duration::from_millis(60) {
+        let pump = if matches!(c.end, End::Script(_, 1)) { 600 } else if matches!(c.end, End::Script(..)) { 150 } else { 60 };
+        while t1.elapsed() < Duration::from_millis(pump) {
             for side in 0..2 {
                 loop {
                     let pkt = { let ep = if side == 0 { &mut a } else { &mut b }; ep.out_rx.try_recv() };
